@@ -168,3 +168,10 @@ for K in (2, 3, 4):
        unwindset=ML(K + 3, 50) + ['strcmp.0:10', 'vf_memcpy.0:10', 'strlen.0:10', 'strcat.0:10', 'strcat.1:10', 'vf_sprintf.0:8', 'vf_sprintf.1:10', 'vf_sprintf.2:8', 'vf_sprintf.3:8', 'vf_put_ulong.0:3', 'vf_put_ulong.1:3',
                                    'encode_string_as_pointer.0:4', 'pointer_encoded_length.0:4'], cost=K * 5,
        tiers=('quick', 'thorough') if K == 3 else ('thorough',), functions=PTRFN, timeout=1200)
+
+# ------------------------------------------------------------------ C16 JSON patch
+PATCHFN = ['apply_patch', 'decode_patch_operation', 'detach_path', 'decode_pointer_inplace', 'decode_array_index_from_pointer', 'detach_item_from_array', 'insert_item_in_array', 'overwrite_item', 'cJSONUtils_strdup', 'get_object_item',
+           'cJSON_AddItemToArray', 'cJSON_AddItemToObject', 'cJSON_DeleteItemFromObjectCaseSensitive', 'cJSON_DetachItemFromObjectCaseSensitive', 'cJSON_Delete']
+for opc, nm in ((1, 'add'), (2, 'remove'), (3, 'replace'), (4, 'move'), (5, 'copy'), (6, 'test'), (0, 'invalid')):
+    QM(('C16',), 'patchunit.%s' % nm, 'harness/patch_unit.c', defs=['-DOPC=%d' % opc], unwind=7, link=['cJSON.c'], stub=['get_item_from_pointer', 'compare_json'], stub_lib='cJSON_Utils.c',
+       unwindset=ML(8, 80) + ['cJSON_Delete:1', 'cJSON_Delete.0:4', 'strcmp.0:8', 'strlen.0:7', 'vf_memcpy.0:66', 'strncmp.0:7', 'strrchr.0:7', 'strcpy.0:8', 'get_object_item.0:5', 'get_object_item.1:5'], cost=20, functions=PATCHFN, timeout=1500)
